@@ -91,6 +91,11 @@ TEXT = {
         "note": "Trusted: Lean kernel, correspondence harness, the evaluator's reading of the cascade (layers, importance, specificity, order) for compound selectors only. Colour-space maths, gradients, nesting expansion and CSS modules are not covered yet.",
         "technique": "Lean 4 proof on hand-written model + differential correspondence; cascade-evaluator search",
     },
+    "C20": {
+        "level": "PARTIAL. Lean theorems over an interleaving model of a build context (any number of threads, any schedule): an invariant preserved by every atomic step, at most one build at a time, Cancel/Dispose/joined Rebuild return only after the build they saw is done, no deadlock (a blocked thread always has an enabled action of its own or of the build's owner), a Rebuild that finds no active build starts one that sees all earlier edits, a disposed context starts no build. Tied by history correspondence: real goroutines on a real context, stamped histories linearised and replayed on the model. Plugin callback ordering (start before resolve/load, load once, end once after write) and data races (Go race detector) are searches. Watch, serve and the stdio service protocol are not covered.",
+        "note": "Trusted: Lean kernel, harness linearisation, Go race detector. Real schedules are sampled, not enumerated.",
+        "technique": "Lean 4 proof on hand-written state machine + history (trace) correspondence; callback-log search; race-detector search",
+    },
 }
 
 _pending = "check not built yet in this session (work in progress; the Lean-proof technique does apply — see DESIGN.md §4)"
